@@ -1792,6 +1792,66 @@ def check_muxer(ck, facts):
 
 
 # =====================================================================================================
+# const inputs are not modified through shallow clones
+# =====================================================================================================
+
+MUT_OK_MODES = ("Deep", "Weak", "Layout", "Allocate")     # modes whose value array is private to the clone (LAFEM::CloneMode)
+
+
+def check_const_alias(ck, facts):
+    """T tmp = in.clone(mode) with `in` reachable from a const parameter / const this; tmp is mutated afterwards => mode must give tmp its own value array"""
+    for fn in facts.functions:
+        if fn.tk == "pattern" or not fn.file.startswith(R("kernel/global/")) or fn.cfg is None:
+            continue
+        rs = Resolver(fn)
+        par = dfl.parents(fn)
+        const_params = {p["d"] for p in fn.params if fn.type(p["t"]).strip().startswith("const ") and fn.type(p["t"]).strip().endswith("&")}
+        this_const = bool(fn.d.get("const"))
+        for d, v in rs.vars.items():
+            ini = v.get("init")
+            if v.get("ref") or ini is None:
+                continue
+            n = ini
+            for _ in range(4):
+                if n.get("k") in ("Construct", "TempObj") and len(n.get("a", [])) == 1:
+                    n = n["a"][0]
+                elif n.get("k") == "Call" and n.get("callee") in dfl.MOVE_FNS and n.get("a"):
+                    n = n["a"][0]
+                else:
+                    break
+            if not (n.get("k") == "MCall" and callee_name(n) == "clone" and len(n.get("a", [])) <= 1):
+                continue
+            src = rs.path(n.get("obj") or {"k": "This"})
+            root = src.steps[0] if src.steps else None
+            from_const = root is not None and ((root[0] == "param" and root[1] in const_params) or (root == ("this",) and this_const))
+            if not from_const:
+                continue
+            # later mutations of the clone (or of a part obtained through a non-const accessor)
+            lp = dfl.Path((("local", d),), text=v["n"])
+            muts = dfl.unmodelled_mutable_uses(fn, rs, lp)
+            muts = [m for m in muts if m is not ini and m is not n]
+            if not muts:
+                continue
+            key = "%s/%s=clone(%s)" % (fkey(fn), v["n"], src)
+            mode = None
+            marg = n["a"][0] if n.get("a") else None
+            if marg is None:
+                mode = "Weak"             # documented default of every clone()
+            else:
+                for x in walk(marg):
+                    if x.get("k") == "Ref" and x.get("dk") == "enum" and "CloneMode" in (x.get("qn") or ""):
+                        mode = x["qn"].rsplit("::", 1)[-1]
+            if mode is None:
+                ck.incomplete("E2.const-input-not-aliased", "%s: clone mode %s is not a constant; whether the clone owns its values is not decidable here" % (key, render(marg)))
+                continue
+            ok = mode in MUT_OK_MODES
+            ck.ob("E2.const-input-not-aliased", key, ok,
+                  ("%s is a %s clone of the const input %s and is modified by %s: CloneMode::%s shares the value array, so the caller's const vector is changed in place "
+                   "(every call with more than one process: the input is scaled by the frequencies on each call)" % (v["n"], mode, src, render(muts[0])[:50], mode)) if not ok else
+                  "%s = %s.clone(%s) owns its values; modified by %s" % (v["n"], src, mode, render(muts[0])[:50]), fn.file, n.get("l"))
+
+
+# =====================================================================================================
 # driver
 # =====================================================================================================
 
@@ -1846,6 +1906,16 @@ def declare_rules(ck):
             "(own local vector[, x.local()]); norm2sqr = dot(*this), norm2 = sqrt(norm2sqr)", 20)
 
 
+    ck.rule("E2.const-input-not-aliased", "a local obtained as in.clone(mode) from an object reachable through a const parameter / const this and modified afterwards "
+            "(from_1_to_0, sync, scale, passed as output ...) owns its value array: mode is Deep / Weak / Layout / Allocate, never Shallow (which shares the values with the const "
+            "input). Broken => the caller's input vector / matrix is changed in place on every multi-process call", 3)
+    ck.rule("E4.global-accessors", "Global::Transfer::get_mat_X forwards to the local transfer's get_mat_X (method parity)", 6)
+    ck.rule("E4.global-delegate", "Global::Transfer::{prol,prol_recv,rest,rest_send,trunc,trunc_send} on the MPI parse: every path applies exactly the local operator of the same kind; "
+            "the type-0 result of a restriction / truncation / prolongation is sync_0'ed on EVERY branch (with and without coarse-level muxer) before the function returns, a temporary "
+            "coarse buffer goes through muxer join / split. Broken (sync only in the no-muxer branch) => with a coarse-level muxer the parent returns the joined but unsynchronised "
+            "vector: dofs shared between parent patches hold only the local sum", 6)
+
+
 def analyse(ck, facts, label):
     check_e0(ck, facts, label)
     check_requests(ck, facts)
@@ -1856,6 +1926,9 @@ def analyse(ck, facts, label):
     check_global_vector(ck, facts)
     check_reductions(ck, facts)
     check_muxer(ck, facts)
+    check_const_alias(ck, facts)
+    from checks import c18 as _c18
+    _c18.check_global_transfer(ck, facts)
 
 
 def run(tier):
